@@ -222,7 +222,10 @@ PostCtor(st, bp, s) ==
     \* a GIFT variable, and a variable XTRA built with AddTermToEquation from a product of two names
     IN IF d.gift /\ d.kind = "RestOfWorld" THEN SetVar(st2, s, "GIFT", DAtom)     \* a constant amount
        \* ... and a variable TWICE whose definition is one requested name, to which the same name is added as a term
-       ELSE IF d.gift THEN SetVar(SetVar(SetVar(st2, s, "GIFT", DAtom), s, "XTRA", DAtom), s, "TWICE", DAtom) ELSE st2
+       \* ... DBL (the same requested name added twice as a term) and NIL (added and subtracted)
+       ELSE IF d.gift THEN SetVar(SetVar(SetVar(SetVar(SetVar(st2, s, "GIFT", DAtom), s, "XTRA", DAtom), s, "TWICE", DAtom),
+                                         s, "DBL", DAtom), s, "NIL", DAtom)
+       ELSE st2
 
 (* statements that need two objects to exist (issued after all declarations): AddMarket on a multi-output business *)
 RECURSIVE LateMarkets(_, _, _)
